@@ -173,6 +173,22 @@ func NewHistoryCase(g *Gen, id int) (*Case, []string, string) {
 	runtime.LockOSThread() // the pools are per-P: stay on one
 	defer runtime.UnlockOSThread()
 	probe := g.execSpec()
+	probeData := ""
+	if !probe.validate && (probe.node.Kind == KStruct || (probe.node.Kind == KPtr && probe.node.Elem.Kind == KStruct)) && g.R.P(20) {
+		// the probed call itself is a request whose body cannot be decoded: exactly one front-end issue,
+		// carrying nothing of earlier calls
+		body := Pick(g.R, []string{`{"a":`, `null`, ``, `[1]`, "a=%zz"})
+		ct, code := "application/json", "invalid_json"
+		if body == "a=%zz" {
+			ct, code = "application/x-www-form-urlencoded", "invalid_form"
+		}
+		probe.factory = func() any {
+			r, _ := http.NewRequest("POST", "http://example.com/p", strings.NewReader(body))
+			r.Header.Set("Content-Type", ct)
+			return zhttp.Request(r)
+		}
+		probeData = `(DFactory (FErr "` + code + `" ""))`
+	}
 	n := probe.node
 	internals.ClearPools()
 	ref := probe.run()
@@ -253,6 +269,7 @@ func NewHistoryCase(g *Gen, id int) (*Case, []string, string) {
 	c := &Case{ID: id, Validate: probe.validate, Schema: n, In: probe.in, Collide: hasIssuePath(n), Shape: Shape(n), PoolMode: "history", TypesOK: true, CtxOK: true, Known: false, ExecFmt: probe.fmtTag}
 	c.Dest0 = CoqDval(probe.dest0, n)
 	c.dest0v = probe.dest0
+	c.DataCoq = probeData
 	c.Obs = after
 	c.Repeats = []string{c.Obs.canon(n)}
 	ids := map[int]*Node{}
